@@ -424,7 +424,7 @@ type selDesc struct {
 
 func selCases(f gallina.Flags, meta *gallina.Meta, cf *gallina.CaseFile, tmp string, id int) int {
 	// ---- select cases
-	ns := f.Count(30, 400)
+	ns := f.Count(30, 300)
 	for i := 0; i < ns; i++ {
 		r := gen.Fork(f.Seed, 1_000_000+i)
 		c := runSelCase(r, i, tmp)
